@@ -228,6 +228,28 @@ def run(ctx):
         ctx.corr_break("model manual_name and the path created by create_sg_from_board disagree", mmeta[b][0], impl=mmeta[b][1])
     for e in errs + errs2 + errs3:
         ctx.harness_errors.append("coqc failed on %s: %s" % (e[0], e[2][-500:]))
+    # hand boards whose largest reward is not a whole number: the name still states every parameter (the maximum as Python prints
+    # it), and different probability sets still get different files. Outside the model's integer maximum: judged here.
+    fr_boards = [dict(moves=[[1, 0], [2, 3]], rewards=[[0.5, 2.5], [1, 0]], loose=[[0, 1], [1, 0]], w=2, l=2, r="2.5", fd=True),
+                 dict(moves=[[1, 2, 0]], rewards=[[0.25, 0, 0.125]], loose=[[0, 0, 1]], w=3, l=1, r="0.25", fd=False)]
+    fjobs, fmeta = [], []
+    for b in fr_boards:
+        for ks in ((29, 57, 58), (10, 10, 10), (1, 99, 50)):
+            fjobs.append(dict(op="manual_name", args=enc([b["moves"], b["rewards"], b["loose"]] + [k / 100 for k in ks])))
+            fmeta.append((b, ks))
+    fseen = {}
+    for (b, ks), r in zip(fmeta, impl.run_cases(fjobs, limit=20, tag="c17f")):
+        ctx.evaluations += 1
+        ctx.count("manual: fractional maximum reward")
+        want = "inputs/manual_robot_w%d_l%d_r%s_rb%d_lb%d_tb%d_%s.py" % (b["w"], b["l"], b["r"], ks[0], ks[1], ks[2], "force_down" if b["fd"] else "")
+        got = r["files"][0][0] if r.get("ok") and len(r.get("files", [])) == 1 else None
+        inp = dict(moves=b["moves"], rewards=b["rewards"], loose=b["loose"], k=list(ks))
+        if got != want:
+            ctx.violation("manual board with maximum reward %s and probabilities %s: created %s, the documented layout gives %s"
+                          % (b["r"], ks, got if got else str(r)[:200], want), inp, impl=got)
+        if got in fseen and fseen[got] != (b["r"], ks):
+            ctx.violation("two different manual parameter sets share the file %s" % got, inp, impl=got)
+        fseen.setdefault(got, (b["r"], ks))
 
 
 def replay(ctx, data):
